@@ -301,7 +301,14 @@ def long_cases(rng, quick):
             plan += [(shape, 1001, 3000, 1 + j % 3, 1 + (j + 1) % 3) for j in range(3)]
             plan += [(shape, 5000, 9000, 2 + j % 2, 3) for j in range(2)]
         plan += [("never-flushed", 10001, 12000, 3, 3), ("slow-storage", 10001, 12000, 3, 2)]
-    return [long_case(rng, *pl) for pl in plan]
+    out = [long_case(rng, *pl) for pl in plan]
+    if quick:
+        # the model follows a trace of n requests in ~n^2 list steps (10 s of one coqc for 4.8k requests): in the quick
+        # tier the largest history is checked by the direct predicate only, the thorough tier compares all of them
+        for c in out:
+            if nops(c["work"]) > 4000:
+                c["model"] = False
+    return out
 
 
 W_TINY2 = [[op_set(0, 0, 0, 0)], [op_set(0, 0, 1, 0)]]                                   # two producers, same key
@@ -453,8 +460,8 @@ def to_gallina(case, obs, first_only=False):
         return "Gate false"
     if case["sched"]["kind"] == "gate":
         return "Gate %s" % gbool(obs["gate"]["ok"])
-    if "runs" not in obs:
-        return None             # real threads: implementation side only
+    if "runs" not in obs or case.get("model") is False:
+        return None             # real threads / the largest quick-tier history: implementation side only
     work = glist([glist([g_op(i, op) for i, op in enumerate(ops)]) for ops in case["work"]])
     runs = obs["runs"][:1] if first_only else obs["runs"]
     terms = []
@@ -697,7 +704,7 @@ def _fit_tokens(toks, work, head):
 
 def shrink_candidates(case):
     sc = case["sched"]
-    base = {k: v for k, v in case.items() if k not in ("origin",)}
+    base = {k: v for k, v in case.items() if k not in ("origin", "model")}     # (shrunk cases are compared with the model)
     if sc["kind"] in ("explore", "random"):
         for (k, sig), (gran, choices) in list(_FAILING.items()):
             if k == _key(case) and choices:
@@ -780,6 +787,8 @@ def features(case):
         f.add("requests-total:" + _bucket(nops(w)))
     if case.get("label", "").startswith("long-history"):
         f.add(case["label"])
+    if case.get("model") is False:
+        f.add("implementation-only(direct predicate)")
     if _key(case) in _BACKLOG:
         at_close, big = _BACKLOG[_key(case)]
         f.add("pending-at-close:" + _bucket(at_close))
